@@ -358,7 +358,10 @@ class Check:
         ev = {"property_id": self.prop, "tier": self.tier, "seed": self.seed, "level": self.level,
               "coverage": cov, "assumptions": self.assumptions, "wall_s": round(wall, 2),
               "violations": len(self.violations)}
-        (EVIDENCE_DIR / f"{self.prop}.json").write_text(json.dumps(ev, indent=1, default=str) + "\n")
+        # evidence/<id>.json is reserved for the listed properties: checks beyond them (EXTRAS) write next to it
+        edir = EVIDENCE_DIR if self.prop.startswith("C") and self.prop[1:].isdigit() else EVIDENCE_DIR.parent / (EVIDENCE_DIR.name + "_beyond_listed")
+        edir.mkdir(parents=True, exist_ok=True)
+        (edir / f"{self.prop}.json").write_text(json.dumps(ev, indent=1, default=str) + "\n")
         if self.violations:
             seen: Dict[str, int] = {}
             keys: Dict[str, set] = {}
